@@ -800,6 +800,13 @@ func c11Worker(c *core.Collector, x *Ctx) {
 		return
 	}
 	refusing.Store(srvR.Addr)
+	// a fourth server that came up at the fourth attempt: Run() was called three times on the same object while the port was
+	// still taken, and once more after it had been released
+	srvF, err := svc.StartAfterFailedRuns(func() service.TerminalEventer { return svc.NewRecorder() }, 3)
+	if err != nil {
+		c.Inconclusive()
+		srvF = srv
+	}
 	if !svc.RaceMode {
 		if srvT, err := svc.Start(func() service.TerminalEventer { return svc.NewRecorder() }); err == nil {
 			c11Twins(c, srv, srvT, 3900000+x.Batch*1000, c.N(12, 60))
@@ -827,6 +834,10 @@ func c11Worker(c *core.Collector, x *Ctx) {
 			if custom {
 				hs = srvK
 				c.Count("histories_with_custom_key_function", 1)
+			}
+			if h%6 == 1 {
+				hs = srvF
+				c.Count("histories_on_a_server_started_after_failed_attempts", 1)
 			}
 			if h%6 == 4 {
 				hs = srvR
